@@ -7,7 +7,7 @@ from __future__ import print_function
 import ctypes, os, sys, struct, importlib.util
 import numpy as np
 
-MAXT = 64
+MAXT = 256
 STRAT = {"random": 0, "pct": 1, "rtc": 2, "rr": 3, "replay": 4}
 STRAT_NAMES = {v: k for k, v in STRAT.items()}
 VIOL = {0: None, 1: "oob", 2: "write-to-readonly", 3: "use-after-free", 4: "no-progress(step cap)",
